@@ -692,6 +692,12 @@ func (f *frame) unop(x *ssa.UnOp) error {
 		}
 		f.origin[x] = p
 		f.originRaw[x] = t
+		if p.Old && f.vals[x].T != nil && f.vals[x].T.Sort == SRef {
+			// a pointer read from the pre-state designates pre-state memory: old(d.cur.pos)
+			cp := *f.vals[x]
+			cp.Old = true
+			f.vals[x] = &cp
+		}
 		if !f.bound {
 			if rf := f.e.rangeFact(f.vals[x].T, x.Type()); !rf.IsTrue() && f.c != nil {
 				f.assume(rf)
